@@ -39,7 +39,84 @@ func unhx(s string) []byte {
 	if err != nil {
 		panic("bad hex " + s)
 	}
-	return b
+	return trackBytes(b)
+}
+
+// ---- argument guards (exec mode): every byte string and every key parsed from an operation line is remembered, and
+// after the operation it must be what it was — the library reads its arguments, it does not write to them, append into
+// their spare capacity, or edit the key objects it is handed.  Places where the harness itself changes an argument on
+// purpose call untrack / resnapKeys.
+
+const guardLen = 8
+
+type trackedBytes struct {
+	view []byte // len n, cap n+guardLen
+	want []byte
+}
+
+type trackedKey struct {
+	k    any
+	want string
+}
+
+var (
+	tracking     bool
+	trackedSlice []trackedBytes
+	trackedKeys  []trackedKey
+)
+
+func trackBytes(b []byte) []byte {
+	if !tracking {
+		return b
+	}
+	buf := make([]byte, len(b)+guardLen)
+	copy(buf, b)
+	for i := len(b); i < len(buf); i++ {
+		buf[i] = 0xa5
+	}
+	trackedSlice = append(trackedSlice, trackedBytes{view: buf[:len(b)], want: append([]byte{}, buf...)})
+	return buf[:len(b)]
+}
+
+// untrack: the harness is about to overwrite this argument itself
+func untrack(b []byte) {
+	for i := range trackedSlice {
+		if len(b) > 0 && len(trackedSlice[i].view) > 0 && &trackedSlice[i].view[0] == &b[0] {
+			trackedSlice[i].view = nil
+		}
+	}
+}
+
+func trackKey(k any) {
+	if tracking {
+		trackedKeys = append(trackedKeys, trackedKey{k: k, want: fmt.Sprintf("%#v", k)})
+	}
+}
+
+// resnapKeys: the harness has just edited a key object itself
+func resnapKeys() {
+	for i := range trackedKeys {
+		trackedKeys[i].want = fmt.Sprintf("%#v", trackedKeys[i].k)
+	}
+}
+
+// argumentsIntact reports the first argument (registered from index nb / nk on) that is no longer what was parsed
+func argumentsIntact(nb, nk int) string {
+	for _, t := range trackedSlice[nb:] {
+		if t.view == nil {
+			continue
+		}
+		full := t.view[:len(t.view)+guardLen]
+		if string(full) != string(t.want) {
+			return "ARGUMENT-WRITTEN " + hx(t.want[:len(t.view)]) + " -> " + hx(full)
+		}
+	}
+	for _, t := range trackedKeys[nk:] {
+		if now := fmt.Sprintf("%#v", t.k); now != t.want {
+			return "ARGUMENT-KEY-CHANGED " + strings.ReplaceAll(t.want, " ", "") + " -> " + strings.ReplaceAll(now, " ", "")
+		}
+	}
+	return ""
 }
 
 func unhxOpt(s string) []byte {
